@@ -183,6 +183,19 @@ Record qrun := { r_alpha : Q; r_impl : option Q; r_impl_scaled : option Q }.
     the representation's arithmetic (1e-9 for binary64 and integers, 1e-5 for binary32) *)
 Record wrun := { w_scale : Q; w_tol : Q; w_norm : option (list Q); w_ess : option Q }.
 
+(** one call of the class-level API [GMDistribution.pdf / logpdf / rvs] inside a HISTORY of calls.
+    A call is described by the numbers passed at that call only (component densities of the points
+    for the means / covariance of that call, the weights of that call; size, constraint and
+    proposal batches of that call): the model has no state that survives a call, so whatever the
+    caller evaluated before, and whichever array objects it re-uses or edits in place between two
+    calls, the answer is the model's answer for the current numbers.  [i_exp] of a [logpdf] call is
+    [exp] of the returned log densities ([ln] is abstract in the model: [logpdf = ln pdf]).      *)
+Inductive gmcall :=
+| GPdf (dens : list (list Q)) (ws : option (list Q)) (tol : Q) (i_pdf : option (list Q))
+| GLogpdf (dens : list (list Q)) (ws : option (list Q)) (tol : Q) (i_exp : option (list Q))
+| GRvs (size : nat) (box : option (list (Q * Q))) (batches : list (list (list Q)))
+       (i_out : option (list (list Q))).
+
 Inductive case :=
 | CQuant (xs : list Q) (ws : option (list Q)) (tol scale : Q) (index : list nat) (runs : list qrun)
 | CStat (xs : list Q) (ws : option (list Q)) (tol : Q)
@@ -193,7 +206,10 @@ Inductive case :=
   (** [normalize_weights] / [compute_ess] called several times on the numeric weights [ws], each
       time in another representation (dtype, container) and/or multiplied by an exactly
       representable common factor *)
-| CWeights (ws : list Q) (wruns : list wrun).
+| CWeights (ws : list Q) (wruns : list wrun)
+  (** a history of calls on the class [GMDistribution] (the caller re-uses and edits in place the
+      arrays it passed before); every call is compared with the stateless model *)
+| CHist (calls : list gmcall).
 
 (** -- quantile -- *)
 Definition rows (xs : list Q) (ws : option (list Q)) : list (Q * Q) :=
@@ -403,6 +419,35 @@ Definition ok_rvs size box (i_out : option (list (list Q))) : bool :=
   | None => false
   end.
 
+(** -- histories of calls on the class: each call against the model's fresh answer -- *)
+Definition agree_call (c : gmcall) : bool :=
+  match c with
+  | GPdf dens ws tol p => agree_pdf dens ws tol p
+  | GLogpdf dens ws tol e => agree_pdf dens ws tol e
+  | GRvs size box batches o => agree_rvs size box batches o
+  end.
+Definition ok_call (c : gmcall) : bool :=
+  match c with
+  | GPdf dens ws tol p => ok_pdf dens ws tol p
+  | GLogpdf dens ws tol e => ok_pdf dens ws tol e
+  | GRvs size box batches o => ok_rvs size box o
+  end.
+
+(** the model's own answer to a call: computed from the numbers of that call alone *)
+Definition model_pdf (dens : list (list Q)) (ws : option (list Q)) : option (list Q) :=
+  fold_right (fun d acc => match gm_pdf d ws, acc with
+                           | Some p, Some l => Some (p :: l)
+                           | _, _ => None
+                           end) (Some []) dens.
+Definition model_call (c : gmcall) : gmcall :=
+  match c with
+  | GPdf dens ws tol _ => GPdf dens ws tol (model_pdf dens ws)
+  | GLogpdf dens ws tol _ => GLogpdf dens ws tol (model_pdf dens ws)
+  | GRvs size box batches _ =>
+      GRvs size box batches
+           (rvs (list Q) (in_box box) (fun t _ => nth t batches []) (S (length batches)) size)
+  end.
+
 Definition agree (c : case) : bool :=
   match c with
   | CQuant xs ws tol scale index runs => agree_quant xs ws tol scale index runs
@@ -410,6 +455,7 @@ Definition agree (c : case) : bool :=
   | CPdf dens ws tol p => agree_pdf dens ws tol p
   | CRvs size box batches o => agree_rvs size box batches o
   | CWeights w runs => agree_weights w runs
+  | CHist calls => forallb agree_call calls
   end.
 
 Definition ok (c : case) : bool :=
@@ -419,4 +465,5 @@ Definition ok (c : case) : bool :=
   | CPdf dens ws tol p => ok_pdf dens ws tol p
   | CRvs size box batches o => ok_rvs size box o
   | CWeights w runs => ok_weights w runs
+  | CHist calls => forallb ok_call calls
   end.
